@@ -219,6 +219,30 @@ class Index(PyModel):
         return Index([(i,) for i in range(n)], [None], default=True)
 
 
+class IndexType(PyModel):
+    """pandas.Index (the class): every index, also a MultiIndex or RangeIndex, is an instance"""
+    def isinstance_check(self, v):
+        return isinstance(v, Index)
+
+    def __call__(self, data, name=None, **k):
+        _only(k, (), 'pd.Index')
+        return Index([(x,) for x in (data.data if isinstance(data, SArr) else data)], [name])
+
+
+class RangeIndexType(PyModel):
+    def isinstance_check(self, v):
+        return isinstance(v, Index) and v.default
+
+
+class SeriesType(PyModel):
+    def isinstance_check(self, v):
+        return isinstance(v, Series)
+
+    def __call__(self, data=None, **k):
+        _only(k, (), 'pd.Series')
+        return Series(list(data))
+
+
 class MultiIndexType(PyModel):
     """pandas.MultiIndex (the class)"""
     def isinstance_check(self, v):
@@ -877,8 +901,7 @@ def install(it):
     mi, dft = MultiIndexType(), DataFrameType()
     it.hooks.update({
         "pandas.MultiIndex": mi, "pandas.DataFrame": dft, "pandas.concat": concat, "numpy.setdiff1d": setdiff1d, "numpy.setxor1d": setxor1d,
-        "pandas.Series": lambda data=None, **k: Series(list(data)),
-        "pandas.Index": lambda data, name=None, **k: (_only(k, (), 'pd.Index'), Index([(x,) for x in (data.data if isinstance(data, SArr) else data)], [name]))[1],
+        "pandas.Series": SeriesType(), "pandas.Index": IndexType(), "pandas.RangeIndex": RangeIndexType(),
         "pandas.isna": lambda x: is_nan(x), "pandas.notna": lambda x: not is_nan(x),
     })
     return mi, dft
